@@ -136,3 +136,19 @@ func (r *Raft) VerifDump() VerifState {
 	s.LastContact = r.LastContact()
 	return s
 }
+
+// VerifLeaderStartIndex returns the first index of this leader's term as its
+// commitment tracker has it (0, false when the server is not leader). Read at
+// sample points only.
+func (r *Raft) VerifLeaderStartIndex() (uint64, bool) {
+	if r.getState() != Leader {
+		return 0, false
+	}
+	c := r.leaderState.commitment
+	if c == nil {
+		return 0, false
+	}
+	c.Lock()
+	defer c.Unlock()
+	return c.startIndex, true
+}
